@@ -18,7 +18,9 @@ for l in open('/tmp/dev.jsonl'):
     n+=1; wall+=r.get('wall_ms',0)
     if r.get('nontrivial'): nt+=1; fps.add(r['fp'])
     for k,v in (r.get('counters') or {}).items(): cnt[k]+=v
-    if r.get('panic'): print('PANIC idx',r['index'],r['panic'][:300],r['stack'][:1500])
+    if r.get('panic'):
+        npanic=globals().get('npanic',0)+1; globals()['npanic']=npanic
+        if npanic<=2: print('PANIC idx',r['index'],r['panic'][:600])
     for v in r.get('viols') or []:
         sig[(v['property'],v['sig'])]+=1; ex.setdefault((v['property'],v['sig']),(r['index'],v['detail']))
 print(n,'cases; nontrivial',nt,'distinct',len(fps),'wall_ms',wall, dict(cnt))
